@@ -141,6 +141,12 @@ def sanitizer_run(case, node, obj, model, ks, calls, labels):
 
         img_all = pl.snapshot(buf)
         ext = layout.extents(spec, img_all, off0)
+        if any((s - off0) % 8 for _, s, e, k, parent in ext if parent is None):
+            # a referent that is not 8-aligned RELATIVE to the holder (the holder or the referent was placed with
+            # offset="packed"): in the real buffer one of the two is misaligned, in the relocated image the other one;
+            # UBSan's alignment check is not the subject here, so the sanitizer part is skipped for such placements
+            labels.add("san_skipped_unaligned_referent")
+            return None
         end = max(e for _, s, e, k, parent in ext)
         start = min(s for _, s, e, k, parent in ext)
         image = img_all[start:end]
